@@ -67,13 +67,30 @@ def build_and_run(job):
     res["run_ok"] = o.returncode == 0
     if o.returncode != 0:
         res["run_error"] = o.stderr[-800:]
-    res["lines"] = o.stdout.splitlines()
-    res["sha"] = hashlib.sha256(o.stdout.encode()).hexdigest()[:16]
+    lines = o.stdout.splitlines()
+    compiled_for = lines[0].split(": ", 1)[1] if lines and lines[0].startswith("compiled-for: ") else None
+    res["compiled_for_matches_request"] = compiled_for == fl
+    if compiled_for != fl:
+        res["compiled_for"] = compiled_for
+    res["lines"] = lines[1:]
+    res["sha"] = hashlib.sha256("\n".join(res["lines"]).encode()).hexdigest()[:16]
     return res
+
+
+def warm():
+    """setup: build every optional dependency once in each pool directory, and the bare configuration"""
+    os.makedirs(BUILD, exist_ok=True)
+    with ThreadPoolExecutor(max_workers=POOL) as ex:
+        rs = list(ex.map(build_and_run, [(k, ("std", tuple(FEATURES))) for k in range(POOL)]))
+    ok = all(r["build_ok"] for r in rs)
+    print("c20 feature pool warmed:", ok)
+    return 0 if ok else 2
 
 
 def main():
     args = sys.argv[1:]
+    if args[:1] == ["--warm"]:
+        sys.exit(warm())
     tier = os.environ.get("VERIF_TIER", "quick")
     passthru = []
     i = 0
